@@ -149,3 +149,39 @@ type ctr struct{ n int32 }
 
 func (c *ctr) inc()      { atomic.AddInt32(&c.n, 1) }
 func (c *ctr) badRead() int32 { return c.n }
+
+// ---- 7. linear forms + intervals (C06.7) and narrow arithmetic (C06.8/C12.8)
+
+func check(n uint32) error { return nil }
+func alloc(n int) []byte   { return make([]byte, n) }
+
+// goodBound: the checked quantity is the wire value, the allocation is smaller.
+func goodBound(wire uint32) []byte {
+	if check(wire) != nil {
+		return nil
+	}
+	n := int(wire)
+	if n < 4 {
+		return nil
+	}
+	return alloc(n - 4)
+}
+
+// badBound: the check sees wire+4, which wraps for the top four values.
+func badBound(wire uint32) []byte {
+	if check(wire+4) != nil {
+		return nil
+	}
+	return alloc(int(wire))
+}
+
+// narrowWrap: 1 + b in a byte is 0 for 255.
+func narrowWrap(b byte) int {
+	var s = 1 + b
+	return int(s)
+}
+
+// narrowOK: the same sum in int.
+func narrowOK(b byte) int {
+	return 1 + int(b)
+}
